@@ -193,6 +193,25 @@ def sweep(run, gen, focus, thorough, crate=None):
             what = (f"`{req[3:]}`: the plugin {'emits ' + hex(w) if w is not None else 'rejects'}, the literal-path model (A64Enc.slotStatic) "
                     f"{'gives ' + hex(mw) if mw is not None else 'rejects'}")
             run.violation("broken-correspondence", {"kind": kind, "obligation": ob["lean_cmds"]}, what, payload, found_input=False)
+    # ---------------- float literals are written as doubles: one that is not exactly a representable immediate must be rejected, not rounded to one
+    if focus in ("C04", "both"):
+        freqs, fmeta = [], []
+        for ob in obs:
+            if ob["ty"] != "f32":
+                continue
+            f = fs[ob["form"]]
+            for txt in ("1.00000000001", "0.12500000001", "-1.9375000001", "2.0000000000000004", "30.999999999", "0.5000000000000001"):
+                freqs.append("cl ; .arch aarch64 ; " + f.render(dict(ob["vals"]), runtime={ob["idx"]: txt}))
+                fmeta.append((ob, txt))
+        seen_m = set()
+        for (ob, txt), req, la in zip(fmeta, freqs, plug(freqs)):
+            stats["float_literals_between"] = stats.get("float_literals_between", 0) + 1
+            w = word_of(la)
+            if w is not None and w != "dynamic" and ob["n"] not in seen_m:
+                seen_m.add(ob["n"])
+                run.violation("failing-input", {"kind": "float-literal-rounded", "mnemonic": ob["mnemonic"], "commands": ob["lean_cmds"]},
+                              f"`{req[3:]}` is accepted and assembles to {hex(w)}: {txt} is not one of the 256 representable immediates, it was rounded to one instead of being rejected",
+                              {"stream": "plug", "input": [req], "impl": [la]})
     # ---------------- run-time spelling: the real macro through rustc
     cases = []
     for ob in obs:
